@@ -472,6 +472,30 @@ func c08JSONDocs(depth int) []string {
 		vals[d] = cur
 	}
 	docs := append([]string{}, vals[depth]...)
+	// deep nesting: every wrapper (and every ordered pair of wrappers, alternating) applied d times
+	// around a string leaf, d = 8..48: linear-size documents on which any re-walking of sub-documents
+	// shows up as a super-polynomial step count
+	wrappers := [][2]string{{"[", "]"}, {"[[],", "]"}, {"[{},", "]"}, {`["ab",`, "]"}, {"[null,", "]"}, {"[1,", "]"},
+		{`{"x":`, "}"}, {`{"hash":`, "}"}, {`{"x":[`, "]}"}, {`[{"x":1},`, "]"}, {"[", ",[]]"}, {"[", ",{}]"}, {"[", `,"ab"]`}}
+	for _, d := range []int{8, 16, 24, 32, 40, 48} {
+		for a := range wrappers {
+			for b := range wrappers {
+				if b != a && d > 24 && (a > 6 || b > 6) {
+					continue // pairs only among the first 7 wrappers at the largest depths
+				}
+				pre, post := "", ""
+				for i := 0; i < d; i++ {
+					w := wrappers[a]
+					if i%2 == 1 {
+						w = wrappers[b]
+					}
+					pre += w[0]
+					post = w[1] + post
+				}
+				docs = append(docs, `{"x":`+pre+`"00"`+post+`}`, pre+`"ab"`+post)
+			}
+		}
+	}
 	docs = append(docs, ``, `{`, `[`, `"`, `{"hash":`, hex.EncodeToString([]byte("x")), strings.Repeat("[", 200)+strings.Repeat("]", 200))
 	return docs
 }
